@@ -238,7 +238,7 @@ TRIPLE_CLASSES = ["random", "random", "random", "del_vs_edit", "del_vs_edit", "i
                   "both_insert_dissimilar", "same_attachment", "same_meta_key", "same_output", "same_line",
                   "minor_diff", "retype", "empty_source", "both_append_outputs", "exec_count", "fixture",
                   "nbmeta_conflict", "out_meta_conflict", "multi_line_meta", "del_vs_transient", "del_vs_transient",
-                  "both_insert_lists", "nul_in_source", "same_insert_edit_below"]
+                  "both_insert_lists", "nul_in_source", "same_insert_edit_below", "transient_meta_conflict"]
 
 
 def merge_triple(gen, cls=None, minor=None, plain_eol=False):
@@ -370,6 +370,30 @@ def merge_triple(gen, cls=None, minor=None, plain_eol=False):
         loc["cells"][pos]["source"] = "\n".join(ll) + fin
         rem["cells"][pos]["source"] = "\n".join(rl) + fin
         info = {"pos": pos, "line": j, "who_edits": who}
+    elif cls == "transient_meta_conflict":
+        # the display-state keys the merger calls transient, changed to DIFFERENT values on the two sides (scrolled is
+        # three-valued: true / false / "auto"), added on both sides, or removed on one side and changed on the other
+        c = gen.cell(m, "code")
+        c["metadata"] = {"scrolled": "auto", "collapsed": True, "autoscroll": "auto", "tags": ["keep"]}
+        for key in r.sample(["scrolled", "collapsed", "autoscroll"], r.choice([0, 1])):
+            del c["metadata"][key]
+        pos = r.randrange(len(base["cells"]) + 1)
+        for nb in (base, loc, rem):
+            nb["cells"].insert(pos, copy.deepcopy(c))
+        lm, rmm = loc["cells"][pos]["metadata"], rem["cells"][pos]["metadata"]
+        for key, vals in (("scrolled", [True, False, "auto"]), ("autoscroll", [True, False, "auto"]), ("collapsed", [True, False])):
+            cc = r.random()
+            if cc < 0.5:
+                a_, b_ = r.sample(vals, 2) if len(vals) > 2 else (vals[0], vals[1])
+                lm[key], rmm[key] = a_, b_
+            elif cc < 0.65:
+                lm.pop(key, None)
+                rmm[key] = r.choice(vals)
+            elif cc < 0.8:
+                lm[key] = r.choice(vals)
+        if r.random() < 0.4:
+            loc["cells"][pos]["source"] = edit_text(loc["cells"][pos]["source"], gen, CODE_LINES)
+        info = {"pos": pos}
     elif cls == "nul_in_source":
         # a NUL character inside a source (valid JSON, valid notebook): external text tools treat the text as binary
         lines = ["line one of %d" % r.randrange(99), "binary \x00 payload pasted here", "line three", "line four"]
